@@ -38,6 +38,9 @@ pub fn gen(seed: u64, n: usize, _tier: &str) -> Vec<Case> {
         ops.push(cmd_op(9, &[b"KEYS", b"*"]));
         cases.push(Case { id: format!("tx-{}", id), ops, outs: vec![] });
     }
+    // atomicity towards clients blocked on a key of the transaction: these histories use the blocking ops
+    // (BCONN ..) and are evaluated by the event-loop model of C13 (ocaml/driver.ml picks the runner per case)
+    cases.extend(crate::c13::gen_exec_atomic());
     cases
 }
 pub fn run(c: &Case) -> Case { run_case(c, &SrvOpts::default()) }
